@@ -114,6 +114,27 @@ class BalanceModel:
             raise AnalysisError("replay loop target is not a single name")
         self.tx_var = self.replay.target.id
         init.vars[self.tx_var] = (("sym", self.tx_var), ("cls", "rp2.abstract_transaction:AbstractTransaction"))
+        # a flag or bound read once into a local before the loop (x = configuration.allow_negative_balances) stands for that read: only plain reads of
+        # the constructor's parameters (field / attribute chains, constants), only names the loop does not rebind
+        body = self.fi.node.body
+        pre = [p for p in SymExec(norm, self.ctx).run(body[: body.index(self.replay)]) if p.exit == "fall"]
+        rebound = {n.id for st in self.replay.body for n in ast.walk(st) if isinstance(n, ast.Name) and isinstance(n.ctx, ast.Store)}
+
+        def plain_read(t) -> bool:
+            if not isinstance(t, tuple) or not t:
+                return False
+            if t[0] == "const":
+                return True
+            if t[0] == "sym":
+                return isinstance(t[1], str) and t[1] in self.fi.param_names
+            if t[0] in ("fld", "attr"):
+                return plain_read(t[1])
+            return False
+
+        if len(pre) == 1:
+            for name, (val, ty) in pre[0].vars.items():
+                if name not in rebound and name != self.tx_var and val[0] in ("fld", "attr") and plain_read(val):
+                    init.vars[name] = (val, ty)
         self.paths = se.run(self.replay.body, init)
 
     def _isinstance_value(self, cond: Term, K) -> Optional[bool]:
